@@ -90,6 +90,11 @@ def main():
         print("CAUGHT" if ok else "MISSED")
         record["caught"] = ok
         if a.record:
+            prev = meta.get("verified", {})
+            if "baseline_with_patch" not in record and "baseline_with_patch" in prev:
+                # the pinned baseline was run with this patch when it was first verified; not repeated now
+                record["baseline_with_patch"] = prev["baseline_with_patch"]
+                record["baseline_from_base"] = prev.get("baseline_from_base", prev.get("base"))
             meta["verified"] = record
             (d / "meta.json").write_text(json.dumps(meta, indent=1) + "\n")
         return 0 if ok else 1
